@@ -110,6 +110,10 @@ type Case struct {
 	Msk []int `json:"msk,omitempty"`
 	// round 6: helper machines (helper2.go): the supplied function, one expression per output
 	Ex []string `json:"ex,omitempty"`
+	// round 7: products on views (views.go): the views a, b, r; the product; concrete-typed method
+	Vw   [][]int `json:"vw,omitempty"`
+	Op   int     `json:"op,omitempty"`
+	Conc int     `json:"conc,omitempty"`
 }
 
 func (c *Case) etFast() int {
@@ -938,6 +942,8 @@ func writeCase(rn *runner, c *Case) {
 		rn.optDerivCase(c)
 	case "Disp":
 		rn.dispCase(c)
+	case "PV":
+		rn.viewCase(c)
 	case "R", "RD": // InSitu reuse: decided by the implementation-level oracle (--extra hunt) only
 		rn.w.Count(c.Kind + ":handed to the oracle")
 	default:
@@ -1052,12 +1058,17 @@ func generate(rng *Rng, n int, tier string) []*Case {
 	for i := 0; i < n*8/21; i++ {
 		cs = append(cs, genHelperM(hrng, i))
 	}
+	// ---- round 7: products on views (T() / Slice / overlapping result and operand), generic and concrete-typed
+	vrng := NewRng(rng.U64() ^ 0x7c06)
+	for i := 0; i < n*2/10; i++ {
+		cs = append(cs, genView(vrng, i))
+	}
 	return cs
 }
 
 // ---------------------------------------------------------------- main
 
-const header = "From Coq Require Import List ZArith QArith Floats.\nFrom Coq Require String.\nImport String.StringSyntax.\nFrom ADV Require Import C06.ModelOpt C06.ModelHelp C06.Corr.\nImport ListNotations.\nOpen Scope string_scope.\nOpen Scope Z_scope.\nOpen Scope nat_scope.\n"
+const header = "From Coq Require Import List ZArith QArith Floats.\nFrom Coq Require String.\nImport String.StringSyntax.\nFrom ADV Require Import C06.ModelOpt C06.ModelHelp C06.ModelView C06.Corr.\nImport ListNotations.\nOpen Scope string_scope.\nOpen Scope Z_scope.\nOpen Scope nat_scope.\n"
 
 func loadCorpus(path string) []*Case {
 	var cs []*Case
